@@ -62,7 +62,7 @@ package flamego
 //@   requires rwInv(w)
 //@   requires 100 <= s && s <= 999
 //@   modifies w.status, w.writeHeaderOnce.fired, w.hookCalls, w.hookOrder, w.hdrAtHooks, w.nHooksRun,
-//@            w.ResponseWriter.hdrCount, w.ResponseWriter.firstStatus, w.ResponseWriter.bodyAtHdr
+//@            w.ResponseWriter.hdrCount, w.ResponseWriter.firstStatus, w.ResponseWriter.bodyAtHdr, w.ResponseWriter.ctAtHdr
 //@   ghost after callBefore#0: w.hdrAtHooks = w.ResponseWriter.hdrCount
 //@   ghost after callBefore#0: w.nHooksRun = len(w.beforeFuncs)
 //@   ensures rwInv(w)
@@ -74,7 +74,7 @@ package flamego
 //@   props C13
 //@   requires rwInv(w)
 //@   modifies w.status, w.size, w.writeHeaderOnce.fired, w.hookCalls, w.hookOrder, w.hdrAtHooks, w.nHooksRun,
-//@            w.ResponseWriter.hdrCount, w.ResponseWriter.firstStatus, w.ResponseWriter.bodyAtHdr, w.ResponseWriter.bodyBytes
+//@            w.ResponseWriter.hdrCount, w.ResponseWriter.firstStatus, w.ResponseWriter.bodyAtHdr, w.ResponseWriter.ctAtHdr, w.ResponseWriter.bodyBytes, w.ResponseWriter.lastWrite
 //@   ensures rwInv(w)
 //@   ensures w.status == ite(old(w.status) == 0, 200, old(w.status))
 //@   ensures w.ResponseWriter.hdrCount == old(w.ResponseWriter.hdrCount) + ite(old(w.status) == 0, 1, 0)
@@ -87,7 +87,7 @@ package flamego
 //@   props C13
 //@   requires rwInv(w)
 //@   modifies w.status, w.writeHeaderOnce.fired, w.hookCalls, w.hookOrder, w.hdrAtHooks, w.nHooksRun,
-//@            w.ResponseWriter.hdrCount, w.ResponseWriter.firstStatus, w.ResponseWriter.bodyAtHdr, w.ResponseWriter.flushes
+//@            w.ResponseWriter.hdrCount, w.ResponseWriter.firstStatus, w.ResponseWriter.bodyAtHdr, w.ResponseWriter.ctAtHdr, w.ResponseWriter.flushes
 //@   ensures rwInv(w)
 //@   ensures w.status == ite(old(w.status) == 0, 200, old(w.status))
 //@   ensures w.ResponseWriter.hdrCount == old(w.ResponseWriter.hdrCount) + ite(old(w.status) == 0, 1, 0)
@@ -377,3 +377,54 @@ package flamego
 //@   props C18
 //@   requires reqOK(c)
 //@   ensures result == ite(reqHasCookie(c.request.Request, name), cookieDecode(reqCookieRaw(c.request.Request, name)), "")
+
+// ---------------------------------------------------------------------------
+// C17 Render
+// ---------------------------------------------------------------------------
+
+//@ ghost field io.Writer.lastEncoded interface{}   // value most recently encoded onto this writer
+//@ ghost field io.Writer.lastIndent string         // indentation the encoder had then
+//@ ghost field io.Writer.lastCodec string          // "json" or "xml"
+//@ ghost field json.Encoder.dst io.Writer
+//@ ghost field json.Encoder.indent string
+//@ ghost field xml.Encoder.dst io.Writer
+//@ ghost field xml.Encoder.indent string
+
+//@ define renderOK(r *render) bool = r.responseWriter != nil && r.responseWriter.hdrCount == 0
+
+//@ func (*render).JSON
+//@   props C17
+//@   requires renderOK(r)
+//@   modifies *
+//@   ensures r.responseWriter.firstStatus == status && r.responseWriter.hdrCount >= 1
+//@   ensures r.responseWriter.ctAtHdr == "application/json; charset=" + r.opts.Charset
+//@   ensures r.responseWriter.lastCodec == "json" && r.responseWriter.lastEncoded == v && r.responseWriter.lastIndent == r.opts.JSONIndent
+
+//@ func (*render).XML
+//@   props C17
+//@   requires renderOK(r)
+//@   modifies *
+//@   ensures r.responseWriter.firstStatus == status && r.responseWriter.hdrCount >= 1
+//@   ensures r.responseWriter.ctAtHdr == "text/xml; charset=" + r.opts.Charset
+//@   ensures r.responseWriter.lastCodec == "xml" && r.responseWriter.lastEncoded == v && r.responseWriter.lastIndent == r.opts.XMLIndent
+
+//@ func (*render).Binary
+//@   props C17
+//@   requires renderOK(r)
+//@   modifies hdrOf(r.responseWriter)[*], r.responseWriter.hdrCount, r.responseWriter.firstStatus, r.responseWriter.bodyAtHdr, r.responseWriter.ctAtHdr, r.responseWriter.bodyBytes, r.responseWriter.lastWrite
+//@   ensures r.responseWriter.firstStatus == status && r.responseWriter.hdrCount == 1
+//@   ensures r.responseWriter.ctAtHdr == "application/octet-stream"
+//@   ensures r.responseWriter.lastWrite == bytes(v)
+
+//@ func (*render).PlainText
+//@   props C17
+//@   requires renderOK(r)
+//@   modifies hdrOf(r.responseWriter)[*], r.responseWriter.hdrCount, r.responseWriter.firstStatus, r.responseWriter.bodyAtHdr, r.responseWriter.ctAtHdr, r.responseWriter.bodyBytes, r.responseWriter.lastWrite
+//@   ensures r.responseWriter.firstStatus == status && r.responseWriter.hdrCount == 1
+//@   ensures r.responseWriter.ctAtHdr == "text/plain; charset=" + r.opts.Charset
+//@   ensures r.responseWriter.lastWrite == s
+
+// option defaults
+//@ func Renderer$1
+//@   props C17
+//@   ensures result.Charset == ite(opts.Charset == "", "utf-8", opts.Charset) && result.JSONIndent == opts.JSONIndent && result.XMLIndent == opts.XMLIndent
